@@ -86,10 +86,22 @@ class _Instant:
         raise NotImplementedError
 
     def _cmp_key(self, other):
-        a_off, b_off = tz_offset_seconds(self.tzinfo), tz_offset_seconds(_tz_of(other))
+        a_off, b_off = _fields_offset(self), _fields_offset(other)
         if (a_off is None) != (b_off is None):
             raise TypeError("can't compare offset-naive and offset-aware datetimes")
         return utc_seconds(self.fields, a_off or 0), utc_seconds(_fields_of(other), b_off or 0)
+
+    def _shift(self, tz):
+        """astimezone(tz): the same instant; the calendar fields stay expressed in the original
+        offset (only comparisons are supported on the result)"""
+        src = _fields_offset(self)
+        if src is None:
+            from symex.core import Unsupported
+
+            raise Unsupported("astimezone on a naive datetime model (system local time)")
+        r = OpaqueDatetime(tz, self.fields)
+        r.fields_offset = src
+        return r
 
     def __le__(self, other):
         a, b = self._cmp_key(other)
@@ -119,6 +131,14 @@ def _tz_of(x):
     return x.tzinfo
 
 
+def _fields_offset(x):
+    """the UTC offset in which x's calendar fields are expressed (None = naive)"""
+    fo = getattr(x, "fields_offset", "same")
+    if not isinstance(fo, str):
+        return fo
+    return tz_offset_seconds(x.tzinfo)
+
+
 class OpaqueDatetime(_Instant):
     """what datetime.datetime(...) returns for solver integers"""
 
@@ -130,19 +150,20 @@ class OpaqueDatetime(_Instant):
 
     def replace(self, **kw):
         # only tzinfo / microsecond are ever replaced by the code under test
-        extra = set(kw) - {"tzinfo", "microsecond"}
-        if extra:
-            from symex.core import Unsupported
-
-            raise Unsupported(f"datetime.replace({sorted(extra)}) on the datetime model")
-        return OpaqueDatetime(kw.get("tzinfo", self.tzinfo), self.fields)
-
-    def astimezone(self, tz=None):
-        # the same instant seen from another fixed offset: comparisons are by instant, so only
-        # the offset bookkeeping matters; the local fields are shifted lazily through utc_seconds
         from symex.core import Unsupported
 
-        raise Unsupported("datetime.astimezone on the datetime model")
+        extra = set(kw) - {"tzinfo", "microsecond"}
+        if extra:
+            raise Unsupported(f"datetime.replace({sorted(extra)}) on the datetime model")
+        if "tzinfo" in kw and not isinstance(getattr(self, "fields_offset", "same"), str):
+            raise Unsupported("replace(tzinfo=...) after astimezone on the datetime model")
+        r = OpaqueDatetime(kw.get("tzinfo", self.tzinfo), self.fields)
+        if not isinstance(getattr(self, "fields_offset", "same"), str):
+            r.fields_offset = self.fields_offset
+        return r
+
+    def astimezone(self, tz=None):
+        return self._shift(tz)
 
 
 class SymDatetime(datetime.datetime, _Instant):
@@ -178,9 +199,7 @@ class SymDatetime(datetime.datetime, _Instant):
         return SymDatetime(self.fields, kw.get("tzinfo", self.tzinfo))
 
     def astimezone(self, tz=None):
-        from symex.core import Unsupported
-
-        raise Unsupported("datetime.astimezone on the datetime model")
+        return self._shift(tz)
 
     __le__ = _Instant.__le__
     __lt__ = _Instant.__lt__
